@@ -120,6 +120,7 @@ type VC struct {
 	finalized bool
 	loopFrames []loopFrame
 	memInfo    map[string]memStore
+	constGlobalVals map[string]Val
 }
 
 type ptrFact struct {
@@ -300,6 +301,9 @@ func (vc *VC) loadLeaves(st *State, p PtrV, t types.Type) []string {
 }
 
 func (vc *VC) load(st *State, p PtrV, t types.Type) Val {
+	if cv, ok := vc.constGlobalVals[p.ref]; ok && p.idx == "0" {
+		return cv
+	}
 	leaves := vc.loadLeaves(st, p, t)
 	v, _ := unflatten(t, leaves)
 	vc.assume(st, vc.wf(st, v, t))
